@@ -65,7 +65,9 @@ func storeHasFix(scratch string) bool {
 	a.Write([]byte("A"))
 	must(st.TombstoneFile(ctx, pa))
 	b, _, err := st.CreateFile(ctx)
-	must(err)
+	if err != nil {
+		return false
+	}
 	b.Write([]byte("B"))
 	errA := a.Close()
 	if ab, ok := b.(interface{ Abort() error }); ok {
@@ -95,6 +97,13 @@ func coqOptNat(i int) string {
 }
 
 func runC16(c *Ctx) {
+	// a store that no longer behaves like the model can make the harness itself trip (an unexpected
+	// error, an index out of range): report that as a broken correspondence, not as a crash
+	defer func() {
+		if r := recover(); r != nil {
+			c.mismatch("harness-panic", fmt.Sprintf("the harness could not drive the store as the model expects: %v", r), nil)
+		}
+	}()
 	c.rep.Rule = "sequences of 8-40 calls (CreateFile/Write/Close/Abort/TombstoneFile/Update/OpenFile/handle reads) by up to 4 writers open at once, " +
 		"name draws forced through a cyclic stream over 3 names, payloads: arbitrary bytes incl. empty, and valid bloom files written in 1-3 chunks; " +
 		"real os failures injected at reservation/temp create and directory fsync (EMFILE), Sync (handle closed early), rename/remove (immutable directory, when the platform allows); " +
@@ -108,9 +117,8 @@ func runC16(c *Ctx) {
 	c.dist("tree", fmt.Sprintf("own_check=%v", fixed))
 	sh := c.newShard("f16", runnerF, "caseF", "mismatches", "violations")
 	sh.limit = 40
-	sh.prelude = []string{"Open Scope nat_scope."}
 	pool := bloomFilePool(c, 8)
-	nSeq := c.pick(260, 6000)
+	nSeq := c.pick(520, 8000)
 	for i := 0; i < nSeq; i++ {
 		c16Sequence(c, sh, filepath.Join(scratch, fmt.Sprintf("s%d", i)), i, fixed, pool)
 	}
@@ -136,7 +144,7 @@ func c16Exhaust(c *Ctx, sh *shard, dir string, fixed bool) {
 	_, _, err := r.store.CreateFile(ctx)
 	term := fmt.Sprintf("CExhaust %s (N.to_nat %d%%N) %s %d %s", coqBool(fixed), bs.VerifMaxCreateFileAttempts, coqStrList(names), k, coqBool(err == nil))
 	desc := map[string]any{"kind": "exhaust", "draws": k, "err": fmt.Sprint(err)}
-	sh.add(c, term, desc)
+	sh.add(c, "("+term+")%nat", desc)
 	c.count([]string{"C16"}, term, true, desc)
 	if err == nil {
 		c.violation("c16-exhaust", "CreateFile succeeded although every name was taken", desc)
@@ -506,7 +514,7 @@ func c16Sequence(c *Ctx, sh *shard, dir string, seq int, fixed bool, pool [][]by
 		desc["sig"] = sigD8
 		c.dist("c16_guard", "stale-writer-close-returned-nil")
 	}
-	sh.add(c, term, desc)
+	sh.add(c, "("+term+")%nat", desc)
 	c.count([]string{"C16"}, term, nontrivial.closed && (nontrivial.removed || nontrivial.collided), map[string]any{"seq": seq, "draws": draws, "calls": len(log), "bloom_stream": bloomStream})
 	c.dist("c16_stream", map[bool]string{true: "bloom", false: "bytes"}[bloomStream])
 	c.dist("c16_caller", map[bool]string{true: "tombstones-open-pointers,no-faults", false: "well-behaved,faults"}[unguarded])
